@@ -380,3 +380,39 @@ def r5(ctx, R):
                     continue
                 extra = ops_b - ops_a
                 R.check(not extra, f'{m_}.{meth} :: comparisons of {key} use the operators of the serial sibling', w, sorted(ops_a), sorted(extra) or sorted(ops_b))
+
+
+@rule('C08', 'C08.R6', 'node-parallel algebra equals the serial formula: MPI sweepers (signatures shared with C02) and base_transfer_MPI (reference normal forms incl. the Reduce payloads)', floor=9)
+def r6(ctx, R):
+    import json
+    import os
+    from . import c02
+    from .. import sweepers as sw
+    from ..sig import Signature
+
+    repo = ctx.repo
+    spec = c02._spec()
+    for meth in ('integrate', 'update_nodes', 'compute_end_point'):
+        for rel, cn in c02._impls(repo, sw.QD_MPI, meth):
+            c02._check_sig(R, repo, rel, cn, meth, spec)
+    with open(os.path.join(os.path.dirname(os.path.dirname(__file__)), 'specs', 'transfer_mpi_signatures.json')) as fh:
+        tspec = json.load(fh)['signatures']
+    rel = 'pySDC/implementations/transfer_classes/BaseTransferMPI.py'
+    for m in ('restrict', 'prolong', 'prolong_f'):
+        fn = repo.func(rel, f'base_transfer_MPI.{m}')
+        w = f'{rel}:base_transfer_MPI.{m}'
+        R.fn(w)
+        sig = Signature(fn, rename=sw.role_renames(fn))
+        lines = [l.text() for l in sig.lines if re.search(r'^(v\d+|self\.(fine|coarse)\.)', l.target)]
+        calls = [f'CALL {sig._rn(c[0])} | {", ".join(map(repr, c[1]))} | {" and ".join(c[2])}' for c in sig.N.calls if re.match(r'^self\.comm_(fine|coarse)\.(Reduce|Allreduce|Bcast)\(', c[0])]
+        found = lines + calls
+        exp = tspec[f'base_transfer_MPI.{m}']['lines']
+        missing = [e for e in exp if e not in found]
+        extra = [f for f in found if f not in exp]
+        if not missing and not extra:
+            # dependency order of the assignments (calls are positioned by their loops/guards only)
+            df = c02._deps([t for t in found if not t.startswith('CALL')])
+            de = c02._deps([t for t in exp if not t.startswith('CALL')])
+            R.check(df == de, f'base_transfer_MPI.{m} :: normal form and data-dependency order equal the reference', w, 'same def-use order', sorted(de - df)[:3] + sorted(df - de)[:3])
+        else:
+            R.bad(f'base_transfer_MPI.{m} :: normal form equals the reference', w, missing[:4], extra[:4])
